@@ -20,10 +20,12 @@ CaseClauses(c) ==
      Cl("C13.SameVerdict", cl = "Ctor", c.ff = c.ct),
      Cl("C13.Equal.Payload", cl = "Ctor" /\ c.ct = "ok" /\ c.ff = "ok", c.da = c.db),
      Cl("C13.Equal.Rows", cl = "Ctor" /\ c.ct = "ok" /\ c.ff = "ok", c.ra = c.rb),
-     Cl("C13.Equal.Probe", cl = "Ctor" /\ c.ct = "ok" /\ c.ff = "ok", c.pa = c.pb) >>
+     Cl("C13.Equal.Probe", cl = "Ctor" /\ c.ct = "ok" /\ c.ff = "ok", c.pa = c.pb),
+     \* the file is the only input of the loader: loading it a second time gives the same outcome and component
+     Cl("C13.Reload", TRUE, c.ff2 = c.ff /\ c.da2 = c.da) >>
 
 AllClauseNames == {"C13.KeyError", "C13.TypeGate", "C13.BothFaults", "C13.SameVerdict", "C13.Equal.Payload",
-                   "C13.Equal.Rows", "C13.Equal.Probe", "events"}
+                   "C13.Equal.Rows", "C13.Equal.Probe", "C13.Reload", "events"}
 RECURSIVE SetToSeq(_)
 SetToSeq(X) == IF X = {} THEN <<>> ELSE LET x == CHOOSE x \in X : TRUE IN <<x>> \o SetToSeq(X \ {x})
 TInit == ci = 1 /\ verd = <<>> /\ stat = [c \in AllClauseNames |-> 0]
